@@ -146,4 +146,23 @@ theorem arc_radial_bounds (u : Rat) (s : V2) (hs : s.x * s.x + s.y * s.y = 1) (t
       div_le_div_of_nonneg_right (mul_le_mul_of_nonneg_left b1 hu6) (le_of_lt hD)
     linarith
 
+
+/-! ## bulge arcs -/
+
+/-- the two end points and the apex of a bulge segment lie on the circle `bulge_to_arc` describes; the centre lies on the
+    perpendicular bisector of the chord; the apex lies on the right of `p1 -> p2` for a positive bulge (counter-clockwise arc)
+    at the distance `|b| d / 2` (sagitta) from the chord -/
+theorem bulge_consistent (p1 p2 : V2) (b : Rat) (hb : b ≠ 0) :
+    dist2 (bulgeCenter p1 p2 b) p1 = bulgeRadius2 p1 p2 b ∧ dist2 (bulgeCenter p1 p2 b) p2 = bulgeRadius2 p1 p2 b ∧
+    dist2 (bulgeCenter p1 p2 b) (bulgeApex p1 p2 b) = bulgeRadius2 p1 p2 b ∧
+    dist2 (bulgeApex p1 p2 b) p1 = dist2 (bulgeApex p1 p2 b) p2 ∧
+    (p2.x - p1.x) * ((bulgeApex p1 p2 b).y - p1.y) - (p2.y - p1.y) * ((bulgeApex p1 p2 b).x - p1.x) = -(b / 2) * dist2 p1 p2 := by
+  have hb2 : b * b ≠ 0 := mul_ne_zero hb hb
+  refine ⟨?_, ?_, ?_, ?_, ?_⟩
+  · simp only [dist2, bulgeCenter, bulgeRadius2]; field_simp; ring
+  · simp only [dist2, bulgeCenter, bulgeRadius2]; field_simp; ring
+  · simp only [dist2, bulgeCenter, bulgeRadius2, bulgeApex]; field_simp; ring
+  · simp only [dist2, bulgeApex]; ring
+  · simp only [dist2, bulgeApex]; ring
+
 end EzdxfVerif.BBox.Lemmas
